@@ -165,11 +165,15 @@ CHECKS = {
     "C20": dict(
         technique="property-based generation of thread programs (Hypothesis) executed by a ThreadSanitizer-instrumented driver: happens-before race detection + differential solo-vs-concurrent digests",
         engine="hypothesis + native/tsan_driver.c (gcc -fsanitize=thread)",
-        text="2-6 generated thread-private programs (parse, all print variants, edits, compare, duplicate, minify, pointer/patch/merge/sort "
-             "utilities) are run alone and then concurrently for 3 rounds with library and driver instrumented by ThreadSanitizer; any report "
-             "other than the documented global error position, or any digest differing from the solo run, is a violation. Exploration over "
-             "programs; schedules are whatever the OS produces (race detection is happens-before based, so it does not need the bad interleaving).",
-        note="The harness does not own the scheduler; only instrumented code is observed; race-free but order-dependent defects are visible only to the differential oracle.",
+        text="2-6 generated thread-private programs (parse of pooled and generated texts, all print variants, edits, compare, duplicate, minify, "
+             "pointer/patch/merge/sort utilities; in half of the cases under custom allocation hooks installed before the threads start, with a "
+             "thread's k-th request inside a core call refused) are run alone, concurrently for 3 rounds (the first before anything else touched "
+             "the library) with library and driver instrumented by ThreadSanitizer, and 2-4 times in one thread with the calls of all programs "
+             "interleaved in a generated order (schedule owned by the harness at call granularity). Any report other than a data race on the "
+             "documented global error position (located by behaviour, not by name), or any digest differing from the solo run, is a violation. "
+             "Exploration over programs; concurrent schedules are whatever the OS produces (race detection is happens-before based, so it does not "
+             "need the bad interleaving).",
+        note="The harness owns the schedule only at call granularity (interleaved rounds); inside calls only instrumented code is observed and race-free but order-dependent defects are visible only to the differential oracle. Allocation failures inside cJSON_Utils calls are not injected (the library does not promise to survive them), so shared state that is written only on such a path is out of reach.",
         ref="3 C20"),
 }
 
